@@ -4,7 +4,7 @@
 //!   code 16001: metadata stream   outputs: one row per step  [status, log_delta, log_budget, size(limbs)]
 //!   code 16002: value stream      outputs: one row per step  [status, log_delta, log_budget, size, err_scaled, mag]
 //!   code 16003: encode->decode identity (f64)  outputs: [err * 2^52 / max(1,|x|max)]
-//! params  ps = [backend, log2 n, base2k, kmax]
+//! params  ps = [backend (1 FFT64Ref, 3 NTT120Ref), log2 n, base2k, kmax, overflow checks of the build (exec sets it to its own)]
 //! vectors vs = steps, each  [op, d, a, b, s0, s1, s2, s3, s4, s5]
 //!
 //! status: 0 Ok, 1 LimbReallocationShrinksBelowMetadata, 2 InsufficientHomomorphicCapacity, 3 PlaintextBase2KMismatch,
@@ -27,8 +27,8 @@ use poulpy_ckks::{
         CKKSPlaintextVecRnx, CKKSPlaintextVecZnx,
     },
     leveled::api::{
-        CKKSAddOps, CKKSAllOpsTmpBytes, CKKSConjugateOps, CKKSDecrypt, CKKSEncrypt, CKKSMulAddOps, CKKSMulOps, CKKSMulSubOps,
-        CKKSNegOps, CKKSPow2Ops, CKKSRescaleOps, CKKSRotateOps, CKKSSubOps,
+        CKKSAddManyOps, CKKSAddOps, CKKSAllOpsTmpBytes, CKKSConjugateOps, CKKSDecrypt, CKKSDotProductOps, CKKSEncrypt, CKKSMulAddOps,
+        CKKSMulManyOps, CKKSMulOps, CKKSMulSubOps, CKKSNegOps, CKKSPow2Ops, CKKSRescaleOps, CKKSRotateOps, CKKSSubOps,
     },
 };
 use poulpy_core::{
@@ -119,6 +119,22 @@ pub const REALLOC: i128 = 66; // d ; s0 size
 pub const COMPACT_COPY: i128 = 67; // d a
 pub const SET_META: i128 = 68; // d ; s0 ld s1 lb
 pub const DECRYPT: i128 = 69; // d ; s0 pt_ld s1 pt_lb
+// composites over register lists: s0 = n (0..=5), s1 = first list packed base 8 (register i = (s1 >> 3i) & 7), s2 = second list / parts
+pub const ADD_MANY: i128 = 70; // d ; s0 n s1 inputs
+pub const MUL_MANY: i128 = 71; // d ; s0 n s1 inputs
+pub const DOT_CT: i128 = 72; // d ; s0 n s1 a-list s2 b-list
+pub const DOT_PTZ: i128 = 73; // d ; s0 n s1 a-list s3 pt_ld s4 pt_lb s5 valseed
+pub const DOT_PTR: i128 = 74; // d ; s0 n s1 a-list s3 prec_ld s4 prec_lb s5 valseed
+pub const DOT_CZ: i128 = 75; // d ; s0 n s1 a-list s2 parts s3 prec_ld s4 prec_lb s5 valseed
+pub const DOT_CR: i128 = 76;
+pub const MAXLIST: i128 = 5;
+
+pub fn unpack(n: i128, packed: i128) -> Vec<usize> {
+    (0..n.clamp(0, MAXLIST)).map(|i| ((packed >> (3 * i)) & 7) as usize).collect()
+}
+pub fn pack(rs: &[usize]) -> i128 {
+    rs.iter().enumerate().map(|(i, r)| (*r as i128) << (3 * i)).sum()
+}
 
 /// shape of an op: which register fields it uses. (uses_a, uses_b, in_place: d is read)
 pub fn shape(op: i128) -> Option<(bool, bool)> {
@@ -133,6 +149,7 @@ pub fn shape(op: i128) -> Option<(bool, bool)> {
         | MULPOW2_INTO | DIVPOW2_INTO | ROTATE_INTO | CONJ_INTO | RESCALE_INTO | COMPACT_COPY => (true, false),
         ADD_INTO | SUB_INTO | MUL_INTO | MULADD_CT | MULSUB_CT => (true, true),
         ALIGN => (false, true),
+        ADD_MANY | MUL_MANY | DOT_CT | DOT_PTZ | DOT_PTR | DOT_CZ | DOT_CR => (false, false),
         _ => return None,
     })
 }
@@ -147,7 +164,12 @@ pub fn well_formed(steps: &[Vec<i128>]) -> bool {
         }
         let Some((ua, ub)) = shape(s[0]) else { return false };
         let ok = |r: i128| (0..NREGS as i128).contains(&r);
-        ok(s[1]) && (!ua || (ok(s[2]) && s[2] != s[1])) && (!ub || (ok(s[3]) && s[3] != s[1]))
+        // register lists of the composites: entries exist and differ from the destination
+        let lists_ok = if (ADD_MANY..=DOT_CR).contains(&s[0]) {
+            let chk = |p: i128| unpack(s[4], p).iter().all(|r| *r < NREGS && *r as i128 != s[1]);
+            (0..=MAXLIST).contains(&s[4]) && s[5] >= 0 && s[6] >= 0 && chk(s[5]) && (s[0] != DOT_CT || chk(s[6]))
+        } else { true };
+        lists_ok && ok(s[1]) && (!ua || (ok(s[2]) && s[2] != s[1])) && (!ub || (ok(s[3]) && s[3] != s[1]))
     })
 }
 
@@ -161,6 +183,8 @@ fn err_code<E: AsRef<dyn std::error::Error + Send + Sync + 'static>>(e: &E) -> i
         Some(CKKSCompositionError::MissingAutomorphismKey { .. }) => 4,
         Some(CKKSCompositionError::PlaintextAlignmentImpossible { .. }) => 5,
         Some(CKKSCompositionError::MultiplicationPrecisionUnderflow { .. }) => 6,
+        #[allow(unreachable_patterns)]
+        Some(_) => 8, // a variant added to the crate after this harness was written
         None => ST_OTHER,
     }
 }
@@ -254,7 +278,11 @@ macro_rules! backend_impl {
                     let bytes = module.ckks_all_ops_with_atk_tmp_bytes(&glwe_infos, &tsk_infos, &atk_infos, &prec)
                         .max(module.ckks_mul_add_ct_tmp_bytes(&glwe_infos, &tsk_infos))
                         .max(module.ckks_mul_add_pt_vec_rnx_tmp_bytes(&glwe_infos, &glwe_infos, &prec))
-                        .max(module.ckks_mul_add_pt_const_tmp_bytes(&glwe_infos, &glwe_infos, &prec));
+                        .max(module.ckks_mul_add_pt_const_tmp_bytes(&glwe_infos, &glwe_infos, &prec))
+                        .max(module.ckks_mul_many_tmp_bytes(MAXLIST as usize, &glwe_infos, &tsk_infos))
+                        .max(module.ckks_dot_product_ct_tmp_bytes(MAXLIST as usize, &glwe_infos, &tsk_infos))
+                        .max(module.ckks_dot_product_pt_vec_rnx_tmp_bytes(&glwe_infos, &glwe_infos, &prec))
+                        .max(module.ckks_dot_product_pt_const_tmp_bytes(&glwe_infos, &glwe_infos, &prec));
                     let mut scratch = ScratchOwned::<BE>::alloc(2 * bytes + (1 << 16));
                     let mut tsk = GLWETensorKey::alloc_from_infos(&tsk_infos);
                     module.glwe_tensor_key_encrypt_sk(&mut tsk, &sk_raw, &tsk_infos, &mut xa, &mut xe, scratch.borrow());
@@ -634,6 +662,77 @@ macro_rules! backend_impl {
                             st = status(&cx.module.ckks_decrypt(&mut pt, &dst.ct, &cx.sk, sc!()));
                             if dst.valid { shadow = Some((dst.re.clone(), dst.im.clone())); }
                         }
+                        ADD_MANY | MUL_MANY => {
+                            let ins: Vec<&Reg> = unpack(s[4], s[5]).into_iter().map(|r| &regs[r]).collect();
+                            let cts: Vec<&Ct> = ins.iter().map(|r| &r.ct).collect();
+                            let r = if op == ADD_MANY { cx.module.ckks_add_many(&mut dst.ct, &cts, sc!()) } else { cx.module.ckks_mul_many(&mut dst.ct, &cts, &cx.tsk, sc!()) };
+                            st = status(&r);
+                            if !ins.is_empty() && ins.iter().all(|r| r.valid) {
+                                let mut acc = (ins[0].re.clone(), ins[0].im.clone());
+                                for x in &ins[1..] { acc = if op == ADD_MANY { lin(&acc.0, &acc.1, &x.re, &x.im, 1.0) } else { cmul(&acc.0, &acc.1, &x.re, &x.im) }; }
+                                shadow = Some(acc);
+                            }
+                        }
+                        DOT_CT => {
+                            let xa: Vec<&Reg> = unpack(s[4], s[5]).into_iter().map(|r| &regs[r]).collect();
+                            let xb: Vec<&Reg> = unpack(s[4], s[6]).into_iter().map(|r| &regs[r]).collect();
+                            let ca: Vec<&Ct> = xa.iter().map(|r| &r.ct).collect();
+                            let cb: Vec<&Ct> = xb.iter().map(|r| &r.ct).collect();
+                            st = status(&cx.module.ckks_dot_product_ct(&mut dst.ct, &ca, &cb, &cx.tsk, sc!()));
+                            if !xa.is_empty() && xa.iter().chain(xb.iter()).all(|r| r.valid) {
+                                let mut acc = (vec![0.0; m], vec![0.0; m]);
+                                for (x, y) in xa.iter().zip(xb.iter()) { let p = cmul(&x.re, &x.im, &y.re, &y.im); acc = lin(&acc.0, &acc.1, &p.0, &p.1, 1.0); }
+                                shadow = Some(acc);
+                            }
+                        }
+                        DOT_PTZ | DOT_PTR | DOT_CZ | DOT_CR => {
+                            let xa: Vec<&Reg> = unpack(s[4], s[5]).into_iter().map(|r| &regs[r]).collect();
+                            let ca: Vec<&Ct> = xa.iter().map(|r| &r.ct).collect();
+                            let n = xa.len();
+                            let prec = CKKSMeta { log_delta: us(s[7]), log_budget: us(s[8]) };
+                            let mut vals: Vec<(Vec<f64>, Vec<f64>)> = Vec::new();
+                            let md = &cx.module;
+                            let r = match op {
+                                DOT_PTZ => {
+                                    let pts: Vec<_> = (0..n).map(|i| cx.pt_znx(s[7], s[8], 0, cx.base2k, s[9] as u64 + i as u64, 0, 1.0).unwrap()).collect();
+                                    for p in &pts { vals.push((p.1.clone(), p.2.clone())); }
+                                    let refs: Vec<&CKKSPlaintextVecZnx<Vec<u8>>> = pts.iter().map(|p| &p.0).collect();
+                                    md.ckks_dot_product_pt_vec_znx(&mut dst.ct, &ca, &refs, sc!())
+                                }
+                                DOT_PTR => {
+                                    let pts: Vec<_> = (0..n).map(|i| cx.pt_rnx(s[7], s[8], s[9] as u64 + i as u64, 0, 1.0)).collect();
+                                    for p in &pts { vals.push((p.1.clone(), p.2.clone())); }
+                                    let refs: Vec<&CKKSPlaintextVecRnx<f64>> = pts.iter().map(|p| &p.0).collect();
+                                    md.ckks_dot_product_pt_vec_rnx(&mut dst.ct, &ca, &refs, prec, sc!())
+                                }
+                                _ => {
+                                    let cs: Vec<_> = (0..n).map(|i| cst_parts(s[6], s[9] as u64 + i as u64)).collect();
+                                    for (cre, cim) in &cs {
+                                        vals.push((vec![cre.map(|v| quant(v, s[7])).unwrap_or(0.0); m], vec![cim.map(|v| quant(v, s[7])).unwrap_or(0.0); m]));
+                                    }
+                                    let rnx: Vec<CKKSPlaintextCstRnx<f64>> = cs.iter().map(|(a, b)| CKKSPlaintextCstRnx::<f64>::new(*a, *b)).collect();
+                                    if op == DOT_CR {
+                                        let refs: Vec<&CKKSPlaintextCstRnx<f64>> = rnx.iter().collect();
+                                        md.ckks_dot_product_pt_const_rnx(&mut dst.ct, &ca, &refs, prec, sc!())
+                                    } else {
+                                        // the constants are converted first (to_znx), as a caller of the ZNX form has to
+                                        let mut znx = Vec::new();
+                                        let mut e = None;
+                                        for c in &rnx { match c.to_znx(cx.base2k.into(), prec) { Ok(z) => znx.push(z), Err(x) => { e = Some(x); break; } } }
+                                        match e {
+                                            Some(x) => Err(x),
+                                            None => { let refs: Vec<&poulpy_ckks::layouts::CKKSPlaintextCstZnx> = znx.iter().collect(); md.ckks_dot_product_pt_const_znx(&mut dst.ct, &ca, &refs, sc!()) }
+                                        }
+                                    }
+                                }
+                            };
+                            st = status(&r);
+                            if n > 0 && xa.iter().all(|r| r.valid) {
+                                let mut acc = (vec![0.0; m], vec![0.0; m]);
+                                for (x, y) in xa.iter().zip(vals.iter()) { let p = cmul(&x.re, &x.im, &y.0, &y.1); acc = lin(&acc.0, &acc.1, &p.0, &p.1, 1.0); }
+                                shadow = Some(acc);
+                            }
+                        }
                         _ => panic!("c16: unknown op {op}"),
                     }
                     // shadow bookkeeping: a failed step leaves the destination's value unspecified
@@ -799,13 +898,22 @@ pub fn project(code: i64, op: i128, row: Vec<i128>) -> Vec<i128> {
 
 backend_impl!(fft64ref, poulpy_cpu_ref::FFT64Ref);
 backend_impl!(ntt120ref, poulpy_cpu_ref::NTT120Ref);
-// the AVX backends implement CKKSImpl only under poulpy-ckks/enable-avx, which the shared harness manifest does not turn on
+// The AVX backends implement CKKSImpl only under poulpy-ckks/enable-avx.  They are compiled in when the harness manifest has
+//   avx = ["poulpy-cpu-avx/enable-avx", "poulpy-ckks/enable-avx", "ckks-avx"]   and   ckks-avx = []
+#[cfg(feature = "ckks-avx")]
+backend_impl!(fft64avx, poulpy_cpu_avx::FFT64Avx);
+#[cfg(feature = "ckks-avx")]
+backend_impl!(ntt120avx, poulpy_cpu_avx::NTT120Avx);
 
 fn run_prog(code: i64, ps: &[i128], steps: &[Vec<i128>]) -> Vec<Vec<i128>> {
     assert!(well_formed(steps), "c16: malformed program");
     match ps[0] {
         1 => fft64ref::run(code, ps, steps),
         3 => ntt120ref::run(code, ps, steps),
+        #[cfg(feature = "ckks-avx")]
+        2 => fft64avx::run(code, ps, steps),
+        #[cfg(feature = "ckks-avx")]
+        4 => ntt120avx::run(code, ps, steps),
         _ => panic!("bad backend"),
     }
 }
@@ -929,7 +1037,7 @@ macro_rules! gen_impl {
                 };
                 let seed = rng.next() as u32 as i128;
                 let parts = if rng.below(8) == 0 { 0 } else { 1 + rng.below(3) as i128 };
-                let s: Vec<i128> = match rng.below(40) {
+                let s: Vec<i128> = match rng.below(47) {
                     0 => st(&[ADD_INTO, d, a, bb]),
                     1 => st(&[SUB_INTO, d, a, bb]),
                     2 => st(&[ADD_ASSIGN, d, a]),
@@ -957,9 +1065,10 @@ macro_rules! gen_impl {
                         let slack = (dmk - resb - srcl).max(0);
                         let l = if wild { rng.range(0, 56) as i128 } else { rng.range(2, (srcl + slack).clamp(2, 50) as i64) as i128 };
                         let k = if rng.below(5) == 0 { (resb + l - rng.range(-3, 6) as i128).max(1) } else { (resb + l).max(1) };
+                        // (a constant with more digits than the destination has limbs is rejected: keep most of them fitting)
                         let fits = (k + b - 1) / b <= dsz;
-                        let l = if !fits && !(defects && rng.below(2) == 0) { srcl.min(50) } else { l };
-                        let k = if !fits && !(defects && rng.below(2) == 0) { (resb + l).max(1) } else { k };
+                        let l = if !fits && rng.below(2) == 0 { srcl.min(50) } else { l };
+                        let k = if !fits && rng.below(2) == 0 { (resb + l).max(1) } else { k };
                         let op = *[[ADD_CZ_ASSIGN, SUB_CZ_ASSIGN], [ADD_CZ_INTO, SUB_CZ_INTO]][into as usize].get(rng.below(2) as usize).unwrap();
                         st(&[op, d, a, 0, l, k, parts, seed])
                     }
@@ -968,8 +1077,9 @@ macro_rules! gen_impl {
                         let (srcl, resb) = if into { (al, (abud - off_a).max(0)) } else { (dl, dbud) };
                         let slack = (dmk - resb - srcl).max(0);
                         let mut l = if wild { rng.range(0, 60) as i128 } else { rng.range(2, 50) as i128 };
-                        // a constant more precise than what the destination stores panics (known class): keep it rare
-                        if (resb + l + b - 1) / b > dsz && !(defects && rng.below(2) == 0) { l = (srcl + slack).min(50).max(0); }
+                        // a constant more precise than what the destination stores is rejected: keep most of them fitting
+                        if (resb + l + b - 1) / b > dsz && rng.below(2) == 0 { l = (srcl + slack).min(50).max(0); }
+                        if resb + l == 0 { l = 1; } // to_znx_at_k needs k >= 1 (admissibility)
                         let op = *[[ADD_CR_ASSIGN, SUB_CR_ASSIGN], [ADD_CR_INTO, SUB_CR_INTO]][into as usize].get(rng.below(2) as usize).unwrap();
                         st(&[op, d, a, 0, l, rng.below(30) as i128, parts, seed])
                     }
@@ -1003,10 +1113,8 @@ macro_rules! gen_impl {
                     30 => st(&[CONJ_INTO, d, a]),
                     31 => st(&[CONJ_ASSIGN, d]),
                     32 => {
-                        // rescale into a destination that cannot hold the result returns Ok with inconsistent metadata (known class): keep it rare
-                        let mut k = if wild { rng.below(200) as i128 } else { rng.below(1 + abud.clamp(0, 40) as u64) as i128 };
-                        if aeff - k > dmk && k <= abud && !(defects && rng.below(2) == 0) { k = (aeff - dmk).min(abud); }
-                        if aeff - k > dmk && k <= abud && !(defects && rng.below(2) == 0) { st(&[NEG_INTO, d, a]) } else { st(&[RESCALE_INTO, d, a, 0, k]) }
+                        let k = if wild { rng.below(200) as i128 } else { rng.below(1 + abud.clamp(0, 40) as u64) as i128 };
+                        st(&[RESCALE_INTO, d, a, 0, k])
                     }
                     33 => st(&[RESCALE_ASSIGN, d, 0, 0, if wild { rng.below(200) as i128 } else { rng.below(1 + dbud.clamp(0, 40) as u64) as i128 }]),
                     34 => st(&[ALIGN, d, 0, bb]),
@@ -1017,6 +1125,23 @@ macro_rules! gen_impl {
                         if rng.below(3) == 0 { let (l, lbp) = ptmeta(rng, dbud); st(&[DECRYPT, d, 0, 0, l, lbp]) }
                         else { let l = rng.below(1 + dmk.min(50) as u64) as i128; st(&[SET_META, d, 0, 0, l, if wild { rng.below(400) as i128 } else { rng.below(1 + (dmk - l).max(0) as u64) as i128 }]) }
                     }
+                    40..=46 => {
+                        // composites over register lists (the destination is never an input)
+                        let cands: Vec<usize> = (0..NREGS).filter(|r| *r as i128 != d && { let (l, bu, _) = mach.meta(*r); l + bu > 0 }).collect();
+                        if cands.is_empty() { fresh(rng, &mut mach, &mut prog, a, &mut push); continue; }
+                        let n = match rng.below(10) { 0 => 0, 1 => 1, 2 => 5, _ => 2 + rng.below(3) as usize };
+                        let which = 40 + rng.below(7) as i128 + 30; // 70..=76
+                        let pick_same_ld = |rng: &mut Rng, mach: &$m::Machine| -> Vec<usize> {
+                            let pivot = cands[rng.below(cands.len() as u64) as usize];
+                            let same: Vec<usize> = cands.iter().copied().filter(|r| mach.meta(*r).0 == mach.meta(pivot).0).collect();
+                            (0..n).map(|_| if rng.below(8) == 0 { cands[rng.below(cands.len() as u64) as usize] } else { same[rng.below(same.len() as u64) as usize] }).collect()
+                        };
+                        let xs: Vec<usize> = if which == MUL_MANY || which == DOT_CT { pick_same_ld(rng, &mach) } else { (0..n).map(|_| cands[rng.below(cands.len() as u64) as usize]).collect() };
+                        let ys: Vec<usize> = if which == DOT_CT { pick_same_ld(rng, &mach) } else { vec![] };
+                        if which != ADD_MANY && which != DOT_CZ && which != DOT_CR { fix = xs.iter().chain(ys.iter()).map(|r| *r as i128).collect(); }
+                        let (l, lbp) = ptmeta(rng, 20);
+                        st(&[which, d, 0, 0, n as i128, pack(&xs), if which == DOT_CT { pack(&ys) } else { parts }, l, lbp, seed])
+                    }
                     _ => { fresh(rng, &mut mach, &mut prog, d, &mut push); continue; }
                 };
                 let _ = (bl, bbud, asz);
@@ -1025,13 +1150,6 @@ macro_rules! gen_impl {
                     let r = *fix.iter().find(|r| { let (l, bu, _) = mach.meta(**r as usize); l + bu == 0 }).unwrap();
                     fresh(rng, &mut mach, &mut prog, r, &mut push);
                     continue;
-                }
-                // ct x ct products give a wrongly scaled result when one operand has the larger log_delta and the other the
-                // larger log_budget (known class): align the budgets first, as ckks_align_assign is meant for
-                if !keep && matches!(s[0], MUL_INTO | MUL_ASSIGN | MULADD_CT | MULSUB_CT) && fix.len() == 2 && fix[0] != fix[1] {
-                    let (l0, b0, _) = mach.meta(fix[0] as usize);
-                    let (l1, b1, _) = mach.meta(fix[1] as usize);
-                    if (l0 - l1) * (b0 - b1) < 0 { push(&mut mach, &mut prog, st(&[ALIGN, fix[0], 0, fix[1]])); }
                 }
                 if !keep {
                     for r in fix {
@@ -1050,9 +1168,17 @@ macro_rules! gen_impl {
 }
 gen_impl!(fft64ref);
 gen_impl!(ntt120ref);
+#[cfg(feature = "ckks-avx")]
+gen_impl!(fft64avx);
+#[cfg(feature = "ckks-avx")]
+gen_impl!(ntt120avx);
 
 /// (backend, log n, base2k, kmax)
+#[cfg(not(feature = "ckks-avx"))]
 const CONFIGS: [(i128, usize, usize, usize); 4] = [(1, 7, 19, 152), (3, 7, 52, 312), (1, 8, 16, 128), (3, 8, 45, 270)];
+#[cfg(feature = "ckks-avx")]
+const CONFIGS: [(i128, usize, usize, usize); 8] =
+    [(1, 7, 19, 152), (3, 7, 52, 312), (2, 7, 19, 152), (4, 7, 52, 312), (1, 8, 16, 128), (3, 8, 45, 270), (2, 8, 16, 128), (4, 8, 45, 270)];
 
 pub fn generate(tier: &str, seed: u64) -> Vec<Rec> {
     let (value, tier) = match tier.strip_prefix("value:") { Some(t) => (true, t), None => (false, tier) };
@@ -1063,9 +1189,16 @@ pub fn generate(tier: &str, seed: u64) -> Vec<Rec> {
     for i in 0..nprog {
         let (be, logn, b2k, kmax) = CONFIGS[i % CONFIGS.len()];
         let nsteps = 8 + rng.below(28) as usize;
-        // every fourth program of the metadata stream may walk into the known defect classes
-        let defects = !value && i % 4 == 3;
-        let steps = if be == 1 { fft64ref(&mut rng, logn, b2k, kmax, nsteps, defects) } else { ntt120ref(&mut rng, logn, b2k, kmax, nsteps, defects) };
+        // every fifth program of the metadata stream may walk into the known defect classes
+        let defects = !value && i % 5 == 4;
+        let steps = match be {
+            1 => fft64ref(&mut rng, logn, b2k, kmax, nsteps, defects),
+            #[cfg(feature = "ckks-avx")]
+            2 => fft64avx(&mut rng, logn, b2k, kmax, nsteps, defects),
+            #[cfg(feature = "ckks-avx")]
+            4 => ntt120avx(&mut rng, logn, b2k, kmax, nsteps, defects),
+            _ => ntt120ref(&mut rng, logn, b2k, kmax, nsteps, defects),
+        };
         out.push(Rec::new(code, vec![be, logn as i128, b2k as i128, kmax as i128, chk_flag()], steps));
     }
     if value {
